@@ -94,6 +94,14 @@ def run(run, binfo):
             gens.append(([('lit', x)], {}, creds))
             gens.append(([('hole', 'k')], {'k': x}, creds))
         gens.append(([('hole', 'k')], {}, {'roles': [x, '']}))
+    # names that differ by more than letter case -- compatibility forms (full width, ligature, superscript), combining
+    # sequences versus precomposed letters -- are different names
+    for x, other in (('admin', '\uff41\uff44\uff4d\uff49\uff4e'), ('fi', '\ufb01'), ('2', '\u00b2'), ('a', '\u00aa'),
+                     ('\u00e9', 'e\u0301'), ('ss', '\u00df'), ('i', '\u0131'), ('k', '\u212a'), ('\u03c3', '\u03c2')):
+        for a, b in ((x, other), (other, x)):
+            gens.append(([('lit', a)], {}, {'roles': [b]}))
+            gens.append(([('lit', a.upper())], {}, {'roles': [b, 'zz']}))
+            gens.append(([('hole', 'k')], {'k': a}, {'roles': [b.upper()]}))
     reqs = [[8, 0, enc_parts(p), enc_jv(t), enc_jv(c)] for p, t, c in gens]
     spec = run_batch(reqs)
     cases, wants = [], []
